@@ -62,6 +62,9 @@ func (p *Parser) parseMethod(method types.Object, opts option.Options) (*model.M
 	if err != nil {
 		return nil, err
 	}
+	// The rest becomes the generated function's doc comment at column one, where a
+	// go:generate line would turn into a live directive of the generated file.
+	_ = util.ExtractMatchComments(docComment, reGoBuildGen)
 
 	cleanUp()
 
